@@ -106,6 +106,7 @@ class Engine:
         self.lib_used = set()
         self.unsupported = []
         self.mod_init = False
+        self.fork_ctl = None       # process-forking path exploration (pyvc.forking), optional
         self.static_heap = {}      # objects allocated while evaluating module top levels (persist across paths)
         self.static_next = -1
         self.cut_memo = {}
@@ -131,6 +132,15 @@ class Engine:
         self.handling_stack = []
         self.trace_truncated = False
         self.loop_pc_mark = None
+
+    def on_fork_child(self):
+        """bookkeeping reset in a forked child: it reports only what it generates itself"""
+        self.obligations = {}
+        self.pending = []
+        del self.work[:]
+        r = self.cur_res
+        r.paths, r.normal, r.exceptional, r.aborted, r.unsupported = 1, 0, 0, 0, []
+        self.cut_stats = {}
 
     def fresh(self, hint='v'):
         self.fresh_n += 1
@@ -190,6 +200,13 @@ class Engine:
         if i < len(self.dec):
             return self.dec[i]
         for j in range(1, k):
+            who = self.fork_ctl.try_fork(self) if self.fork_ctl is not None else None
+            if who == 'child':
+                # continue this very path with alternative j (no re-execution of the prefix)
+                self.dec.append(j)
+                return j
+            if who == 'parent':
+                continue            # a child explores alternative j
             self.pending.append(self.dec[:i] + [j])
         self.dec.append(0)
         return 0
@@ -1930,8 +1947,14 @@ def _engine_cut(self, cut, idx, env):
     tf = sorted('%s=%s' % (cn.nm(repr(k)), v) for k, v in self.tfacts.items())
     sig = '\n'.join([state_text, 'PC', '\n'.join(pcs), 'TF', '\n'.join(tf), 'TRACE', cn.nm(repr(self.trace)),
                      'HAVOC %s' % self.havoced])
-    memo = self.cut_memo.setdefault((key, idx), {})
     here = tuple(self.dec[:self.dpos])
+    if self.fork_ctl is not None:
+        first = self.fork_ctl.cut_first(key, idx, sig, here)
+        if first != here:
+            self.cut_stats[(key, idx)] = self.cut_stats.get((key, idx), 0) + 1
+            raise PathAbort()
+        return
+    memo = self.cut_memo.setdefault((key, idx), {})
     if sig in memo and memo[sig] != here:
         # an earlier path reached this cut in an identical state: its continuation covers ours
         self.cut_stats[(key, idx)] = self.cut_stats.get((key, idx), 0) + 1
